@@ -14,7 +14,10 @@ RULE = ('scripts from the procedural grammar: 0-3 plain statements, one '
         'body nests (depth <= 3) plain statements (with ;, end, begin inside '
         'literals and comments), nested BEGIN...END, IF/ELSIF/ELSE/END IF, '
         'WHILE...DO...END WHILE, LOOP...END LOOP, CASE expressions, inner '
-        'DECLARE, assignments, RETURN, then 0-3 plain statements; every '
+        'DECLARE, assignments, RETURN, calls named like block keywords '
+        '(IF(...), LEFT(...)), qualified names spelled like them (NEW.end, '
+        'r.begin), trigger headers BEFORE/AFTER/INSTEAD OF ... FOR EACH ROW '
+        'and ON t FOR|AFTER event[, event] AS, then 0-3 plain statements; every '
         'keyword casing and whitespace spelling. Oracle (derivation): '
         'split() returns exactly the written top-level statements, the '
         'CREATE as one piece ending at the ; after its final END. 70% of the '
